@@ -4,4 +4,9 @@ CLAIMS = {
   "undecided": "that no input reaches one of the input-dependent assert statements or a value-level internal failure (e.g. argmax('a')); message contents and marker positions.",
   "technique": "AST dispatch-chain exhaustiveness, symtable scope analysis, try/except coverage over resolved call sites",
  },
+ "C12": {
+  "decided": "R1 the parser's dispatch chains cover the operator table, the delimiter table and the stage-1 node family; R2 every punctuation string emitted by the stage-1 __str__ methods and by the el_op templates (the only texts that are parsed again) segments into lexer literals; R3 every path through the lexer's scan loop advances the position by a provably positive amount; R4 (=C03.R6) every SyntaxError built by the parser receives the caller's own, never rebound, text; R5 the literal table is prefix-free, so first-match lexing does not depend on the (partly hash-ordered) table order; R6 optional integer fields (axis value, positions) are never tested by truthiness; R7 exclusive end positions are never used as marker positions.",
+  "undecided": "structural round-trip equality for all strings, independence of redundant spaces as a whole, and termination of the recursive descent.",
+  "technique": "AST table agreement (printer vs lexer alphabet), CFG must-pass-through for loop progress, dispatch exhaustiveness, position/optional-int lints",
+ },
 }
